@@ -50,6 +50,16 @@ func cmdRobust(args []string) {
 		rep.Mismatches = append(rep.Mismatches, core.Mismatch{Config: cfg, Ops: []string{reqText}, Impl: []string{verdict},
 			Model: []string{"a well-formed success or error response, no panic, no hang, stored data intact after an error"}, Index: 0, ShrunkFrom: 1, Kind: "robust", OpsJSON: j, SpecVerdict: "rejects"})
 	}
+	// the request about to be sent, left behind for the case that the implementation brings the
+	// process down with a fatal runtime error
+	crumb := func(cfg, text string, reqJSON any) {
+		if *out == "-" || *out == "" {
+			return
+		}
+		j, _ := json.Marshal(map[string]any{"config": cfg, "what": "request in flight when the process died", "request": reqJSON})
+		b, _ := json.Marshal(map[string]any{"config": cfg, "ops": []string{text}, "ops_json": json.RawMessage(j)})
+		os.WriteFile(*out+".current", b, 0644)
+	}
 	if *replay != "" {
 		b, err := os.ReadFile(*replay)
 		if err != nil {
@@ -90,6 +100,7 @@ func cmdRobust(args []string) {
 				} else {
 					req = robust.GenGcs(r)
 				}
+				crumb("gcs:"+store, req.String(), req)
 				v, res := e.JudgeGcs(req)
 				rep.Evaluations++
 				rep.OpKinds["gcs "+strings.SplitN(req.Note, " of ", 2)[0]]++
@@ -120,6 +131,7 @@ func cmdRobust(args []string) {
 			e.Seed()
 			for i := 0; i < *n; i++ {
 				c := robust.GenBt(r)
+				crumb("bt:"+eng, c.Name+" "+c.Text, map[string]any{"rpc": c.Name, "request": c.Text, "seed": *seed, "index": i})
 				v, code := e.JudgeBt(c)
 				rep.Evaluations++
 				rep.OpKinds["bt "+c.Name]++
@@ -142,6 +154,11 @@ func cmdRobust(args []string) {
 			secs = 30
 		}
 		self, _ := os.Executable()
+		if rb := os.Getenv("VERIF_RACE_BIN"); rb != "" {
+			// the same harness built with the race detector: a data race in the mix kills the child too
+			self = rb
+			rep.Extra["concurrent_mix_under_race_detector"] = 1
+		}
 		cmd := exec.Command(self, "robustmix", "--seed", fmt.Sprint(*seed), "--seconds", fmt.Sprint(secs))
 		var outb, errb bytes.Buffer
 		cmd.Stdout, cmd.Stderr = &outb, &errb
